@@ -247,3 +247,28 @@ def hostile_script(rng, repo, length=None):
     rec.run(t + 4_000_000, latency, app=app, max_events=2500)
     rec.dump_all()
     return rec
+
+
+def lossy_script(rng, repo):
+    """a transfer (or two) during which frames are lost / a node falls silent, then a follow-up transfer"""
+    k = rng.choice([2, 3])
+    addrs = rng.sample(range(1, 250), k)
+    nodes = [dict(maxcmdt=rng.choice([1, 2, 3, 255]), cmdt=None, bam=50000, addrs=[addrs[i]]) for i in range(k)]
+    rec = Rec21(repo, rng, nodes)
+    latency = lambda r: r.choice([1, 1000])
+    lost = set(rng.sample(range(40), rng.choice([1, 1, 2])))
+    silent = {}
+    if rng.random() < 0.3:
+        silent[rng.randrange(k)] = rng.randrange(0, 12)
+    lose = lambda n, src, dst, cid, data: n in lost or (dst in silent and n >= silent[dst]) or (src in silent and n >= silent[src])
+    i, j = rng.sample(range(k), 2)
+    bcast = rng.random() < 0.3
+    data = rand_payload(rng, rng.choice([9, 14, 15, 21, 22, 50, 84]))
+    app = [(sim.START_US, lambda r: r.send(i, 0, 254 if bcast else 208, 1 if bcast else addrs[j], 6, addrs[i], data, latency, lose))]
+    rec.run(sim.START_US + 4_000_000, latency, lose=lose, app=app, max_events=1500)
+    lost.clear(); silent.clear()
+    data2 = rand_payload(rng, rng.choice([9, 30]))
+    app = [(rec.now, lambda r: r.send(i, 0, 254 if bcast else 208, 1 if bcast else addrs[j], 6, addrs[i], data2, latency))]
+    rec.run(rec.now + 3_000_000, latency, app=app, max_events=800)
+    rec.dump_all()
+    return rec
